@@ -153,7 +153,7 @@ func init() {
 		return SliceV{arr: arr, len: n, cap: n}
 	}
 	rtIntrinsics["vAssume"] = func(in *Interp, c *callCtx) Value {
-		in.assume(c.args[0].(*Term))
+		in.assume(in.exact(c.args[0].(*Term)))
 		return nil
 	}
 	rtIntrinsics["vAssert"] = func(in *Interp, c *callCtx) Value {
@@ -171,14 +171,24 @@ func init() {
 		return nil
 	}
 	rtIntrinsics["vAnd"] = func(in *Interp, c *callCtx) Value {
-		return in.tt.And(c.args[0].(*Term), c.args[1].(*Term))
+		a, b := c.args[0].(*Term), c.args[1].(*Term)
+		r := in.tt.And(a, b)
+		in.setExact(r, in.tt.And(in.exact(a), in.exact(b)))
+		return r
 	}
 	rtIntrinsics["vOr"] = func(in *Interp, c *callCtx) Value {
-		return in.tt.Or(c.args[0].(*Term), c.args[1].(*Term))
+		a, b := c.args[0].(*Term), c.args[1].(*Term)
+		r := in.tt.Or(a, b)
+		in.setExact(r, in.tt.Or(in.exact(a), in.exact(b)))
+		return r
 	}
-	rtIntrinsics["vNot"] = func(in *Interp, c *callCtx) Value { return in.tt.Not(c.args[0].(*Term)) }
+	// negative positions take the exact comparison (the strong one would be too weak there)
+	rtIntrinsics["vNot"] = func(in *Interp, c *callCtx) Value { return in.tt.Not(in.exact(c.args[0].(*Term))) }
 	rtIntrinsics["vImplies"] = func(in *Interp, c *callCtx) Value {
-		return in.tt.Implies(c.args[0].(*Term), c.args[1].(*Term))
+		a, b := in.exact(c.args[0].(*Term)), c.args[1].(*Term)
+		r := in.tt.Implies(a, b)
+		in.setExact(r, in.tt.Implies(a, in.exact(b)))
+		return r
 	}
 	rtIntrinsics["vIteInt64"] = func(in *Interp, c *callCtx) Value {
 		return in.tt.Ite(c.args[0].(*Term), c.args[1].(*Term), c.args[2].(*Term))
@@ -191,7 +201,17 @@ func init() {
 		return in.tt.Ite(c.args[0].(*Term), in.tt.Const(64, 1), in.tt.Const(64, 0))
 	}
 	rtIntrinsics["vSame"] = func(in *Interp, c *callCtx) Value {
-		return in.deepEq(c.args[0], c.args[1], nil, map[[2]*Cell]bool{}, 0)
+		before := in.congUsed
+		s := in.deepEq(c.args[0], c.args[1], nil, map[[2]*Cell]bool{}, 0)
+		if in.congUsed != before {
+			// congruence was used somewhere: also build the exact comparison; the strong
+			// term is tried first, the exact one only when the strong one is not implied
+			in.noCong = true
+			r := in.deepEq(c.args[0], c.args[1], nil, map[[2]*Cell]bool{}, 0)
+			in.noCong = false
+			in.setExact(s, r)
+		}
+		return s
 	}
 	rtIntrinsics["vSnapshot"] = func(in *Interp, c *callCtx) Value {
 		return in.deepCopy(c.args[0], map[*Cell]*Cell{}, map[*MapObj]*MapObj{})
@@ -854,10 +874,32 @@ func (in *Interp) loadPolyDump(target Value) {
 // when their arguments are equal. This is a sufficient condition only; a
 // counterexample produced under it is always replayed natively before it is
 // reported (the solvers available here do not decide fp.mul/to_fp equalities).
+// exact / setExact: a boolean built from vSame with congruence has an exact twin
+// (same comparison with plain equality); strong => exact.
+func (in *Interp) exact(t *Term) *Term {
+	if r, ok := in.exactOf[t.id]; ok {
+		return r
+	}
+	return t
+}
+
+func (in *Interp) setExact(strong, exact *Term) {
+	if strong == exact || strong.IsConst() && strong.BoolVal() {
+		return
+	}
+	if in.exactOf == nil {
+		in.exactOf = map[int]*Term{}
+	}
+	in.exactOf[strong.id] = exact
+}
+
 func (in *Interp) congEq(a, b *Term) *Term {
 	tt := in.tt
 	if a == b {
 		return tt.True
+	}
+	if in.noCong {
+		return tt.Eq(a, b)
 	}
 	if a.sort != b.sort {
 		return tt.False
@@ -867,6 +909,7 @@ func (in *Interp) congEq(a, b *Term) *Term {
 	}
 	if a.op == b.op && a.val == b.val && len(a.args) == len(b.args) && len(a.args) > 0 && in.needsCong(a) {
 		in.stubsHit["congruence-equality (fp / mul / div kernels)"]++
+		in.congUsed++
 		r := tt.True
 		for i := range a.args {
 			r = tt.And(r, in.congEq(a.args[i], b.args[i]))
